@@ -453,11 +453,19 @@ def parseLine(raw, eols=(CRLF, LF, CR ), kind="event line"):
 
     Raise error if eol not found before MAX_LINE_SIZE
     """
+    skip = False  # True when last line ended with a CR as last byte of raw
     while True:
-        for eol in eols:  # loop over eols unless found
-            index = raw.find(eol)  # not found index == -1
-            if index >= 0:
-                break
+        if skip and raw:  # CR LF split across receives is one eol
+            if raw[0:1] == LF:
+                del raw[0]
+            skip = False
+
+        index = -1
+        for e in eols:  # earliest eol, first in eols when at same index
+            i = raw.find(e)
+            if i >= 0 and (index < 0 or i < index):
+                index = i
+                eol = e
 
         if index < 0:  # not found
             if len(raw) > MAX_LINE_SIZE:
@@ -472,6 +480,7 @@ def parseLine(raw, eols=(CRLF, LF, CR ), kind="event line"):
         line = raw[:index]
         index += len(eol)  # strip eol
         del raw[:index] # remove used bytes
+        skip = (eol == CR and not raw and CRLF in eols)
         (yield line)
     return
 
